@@ -37,6 +37,8 @@ def cases(tier, seed):
     n = 8 if tier == 'quick' else 144
     cs = [{'kind': kinds[i % len(kinds)], 'seed': rng.randrange(1 << 30)} for i in range(n)]
     cs += [{'kind': 'warnonly', 'seed': rng.randrange(1 << 30)} for _ in range(1 if tier == 'quick' else 12)]   # the worst finding is a warning: the status must not move with -l
+    for j, c in enumerate([c for c in cs if c['kind'] == 'mix']):
+        c['asym'] = j % 2 == 0
     for c in cs:
         if c['kind'] == 'terrapin':
             c['marker'] = True   # the quick tier's single Terrapin peer carries the marker (advisory text lists the algorithms); thorough has both variants via the seed
@@ -62,7 +64,7 @@ def build_script(c):
         classes = {'db': 6, 'unknown': 2}
     if kind == 'gss':
         classes = {'db': 5, 'gss': 3}
-    k = gen.random_kex(rng, names, classes, (2, 7))
+    k = gen.random_kex(rng, names, classes, (2, 7), sym=not c.get('asym'))   # half of the mixed peers advertise other cipher/MAC lists in the other direction: every rendering is about the same direction
     if kind == 'gss':
         # several instantiations of the same wildcard family (one per GSS mechanism), as real GSS servers advertise
         for fam in ('gss-group1-sha1-*', 'gss-gex-sha1-*', 'gss-group14-sha256-*'):
